@@ -1,11 +1,52 @@
-import MiniconfVerif.Lemmas.Meta
-import MiniconfVerif.Model.Iter
+import MiniconfVerif.Lemmas.IterEnum
 
-/-! # C03 — node iteration yields every leaf exactly once, in key order
-(first instalment; the enumeration theorem `nodes_eq_leaves` is being added,
-see DESIGN.md §7 C03) -/
+/-! # C03 — node iteration yields every leaf exactly once, in key order, nothing else
+
+Model: `Model/Iter.lean` (`IterSt.step` = one pass of the `loop` in `NodeIter::next`,
+`IterSt.next` = the loop, `IterSt.poll` = repeated `next()` calls), `Model/Schema.lean`
+(`traverse` = `TreeKey::traverse_by_key`, `leaves` = the specification: all leaf index paths,
+depth first in declaration order), `Model/Transcode.lean` (the targets' callbacks).
+
+The proof (Lemmas/Enum.lean, IdxWalk.lean, IterEnum.lean): the depth-first order of the leaves
+is the orbit of a successor function with carry (`succRev`); the traversal of the state array
+through the ordinary key lookup is a pure recursion over the index list (`idxWalk`); one pass
+of the loop either advances to the first leaf of the next sibling or carries one level up;
+by induction over the carry chain `next()` computes the successor. -/
 namespace MiniconfVerif.C03
 open MiniconfVerif
+
+/-- **`nodes::<N, D>()` enumerates the leaves.** For every well-formed type, every state
+depth `D ≥ max_depth` and every target that does not run out of capacity: polling a fresh
+iterator `n` times returns exactly the first `n` leaves in depth-first declaration (= key)
+order — each once, with nothing else in between, each as a leaf `Node` of its depth paired
+with the target transcoded along that very leaf — and `None` from then on, for every `n`. -/
+theorem nodes_enumerates_leaves (s : Schema) (hwf : s.WF) (hsm : s.Small) (D : Nat) (hD : s.maxDepth ≤ D)
+    (fresh : Target) (hacc : Accepts s fresh) (n : Nat) :
+    (IterSt.init D).poll s D fresh n =
+      ((s.leaves.map fun p => Polled.item (.node (tgtAt s fresh p) (.leaf p.length))) ++
+        List.replicate n Polled.finished).take n :=
+  poll_init s hwf hsm D fresh hacc hD n
+
+/-- the target yielded with a leaf is the one `transcode` produces from that leaf's own key -/
+theorem yielded_target_is_transcoding (s : Schema) (hwf : s.WF) (hsm : s.Small) (fresh : Target)
+    (hacc : Accepts s fresh) (p : List Nat) (hp : p ∈ s.leaves) :
+    s.transcode (.list (intKeys p)) fresh = (.leaf p.length, tgtAt s fresh p) :=
+  tgtAt_eq_transcode s hwf hsm fresh hacc p (mem_leaves_at? p s hp)
+
+/-- the hypothesis on the target holds for `()` and for index arrays with `max_depth` slots
+(for those the yielded key *is* the leaf's index path) -/
+theorem targets_accept (s : Schema) (cap m : Nat) (hcap : s.maxDepth ≤ cap)
+    (har : ∀ q u, s.at? q = some u → u.arity ≤ m + 1) :
+    Accepts s .unit ∧ Accepts s (.idx [] cap m) ∧
+    (∀ p ∈ s.leaves, tgtAt s (.idx [] cap m) p = .idx p cap m) :=
+  ⟨accepts_unit s, accepts_idx s cap m hcap har,
+   fun p hp => tgtAt_idx s cap m hcap har p .leaf (mem_leaves_at? p s hp)⟩
+
+/-- the order of the leaves is the orbit of the odometer successor, starting at the all-zero
+path and ending where the successor has nothing left -/
+theorem leaves_successor_orbit (s : Schema) (h : s.WF) :
+    s.leaves.head? = some s.firstLeaf ∧ Chain (after s) s.leaves none :=
+  leaves_are_successor_chain s h
 
 /-- the number of leaves equals the leaf count reported by the metadata
 (what `exact_size()` counts down from) -/
@@ -15,7 +56,14 @@ theorem count_eq (s : Schema) : s.leaves.length = s.meta.count := (meta_count s)
 reports surplus keys, so the `TooLong` arm of `next()` is unreachable -/
 theorem state_keys_never_too_long (st : List Nat) : (stateKeys st).finalize = .ok () := rfl
 
+/-! ## non-vacuity -/
 def ex : Schema := .node (.named ["foo", "bar", "baz"]) [.leaf, .array 3 .leaf, .leaf]
-example : ex.leaves.length = 5 := by decide
+example : ex.WF := by simp [ex, Schema.WF, Schema.WF.wfList, Lookup.len]
+example : ex.Small := small_of_smallB ex (by decide)
+example : ex.maxDepth ≤ 2 := by decide
+example : ex.leaves = [[0], [1, 0], [1, 1], [1, 2], [2]] := by decide
+example : (IterSt.init 2).poll ex 2 .unit 7 =
+    [.item (.node .unit (.leaf 1)), .item (.node .unit (.leaf 2)), .item (.node .unit (.leaf 2)),
+     .item (.node .unit (.leaf 2)), .item (.node .unit (.leaf 1)), .finished, .finished] := by decide +kernel
 
 end MiniconfVerif.C03
